@@ -15,8 +15,9 @@
   AUDIT — genuinely open for C14 (none is a Lean statement with a missing proof):
   * `NxContract` for the REAL networkx routine (Edmonds' blossom algorithm, outside /repo): trusted, tested against the
     verified optimum on every run by the C13 harness;
-  * the Blossom V backend of `gt.mwpm` (C library absent in this environment): no bridge (statement sketched at the end
-    of Props/C14/Bridge.lean);
+  * the Blossom V backend of `gt.mwpm` (C library absent in this environment): bridged in Props/C14/Blossom.lean for all
+    sizes with R + C < infty()/10; trusted there: the contract `Blossom5.ClibContract` of the REAL C routine (outside
+    /repo; the harness runs the real wrapper against a stand-in library);
   * the naive decoder: the property's per-component hypothesis is FALSE for it (finding D5, below); the total-weight
     statement `naive_corrects_partial` is what is proved.
 
